@@ -47,9 +47,9 @@ class P(StreamProperty):
                 es = [] if f[2] == '-' else [int(x) for x in f[2].split(',')]
                 for e in es:
                     if nsub.get(e, 0) == 0: nsub[e] = 1
-                    # within one table call an LDPC decoder may rebuild a symbol before reaching its entry, so
-                    # "submitted while unknown" is only decidable here for Reed-Solomon (no decoding during the call)
-                    if kind != 'ldpc' and e < k and e not in known and e not in first_sub:
+                    # every source symbol present in the table is submitted by this call; those not yet available
+                    # before the call were "submitted while still unknown"
+                    if e < k and e not in known and e not in first_sub:
                         first_sub[e] = 0
             elif op == 'complete':
                 now = d.get('c') == '1'
